@@ -399,6 +399,7 @@ def run(ctx):
     for i in bad[:10]:
         ctx.mismatch("the Python twin of Model/Objects.step disagrees with the Coq model on this history", meta[i], {"what": "twin-vs-model"})
     wrapper_stream(ctx, DATA)
+    adapter_model_stream(ctx, DATA)
 
 
 def wrapper_stream(ctx, DATA):
@@ -453,3 +454,185 @@ def wrapper_stream(ctx, DATA):
         if any(not np.array_equal(a, b) for a, b in zip(arrays, frozen)):
             ctx.violation("a caller's ndarray was modified in place by an adapter / detector history", {"history": hist}, {"what": "caller-data-modified"})
             arrays[:] = [a.copy() for a in frozen]
+
+
+# ------------------------------------------------------------------------------------------------------------------
+# adapters held by the user and sharing their cost object: Model/Adapters.v (twin validated in Coq by Check/AdaptersCheck.ahist_ok)
+# ------------------------------------------------------------------------------------------------------------------
+AHEADER = ("From Coq Require Import List Arith Bool.\nFrom SK Require Import Lib.Base Model.Adapters Check.AdaptersCheck.\nImport ListNotations.")
+AK = ["KChange", "KSaving", "KLocal"]
+
+
+class ATwin:
+    def __init__(self):
+        self.C, self.A = [], []
+
+    def step(self, o):
+        k = o[0]
+        if k == "NewC":
+            self.C.append({"param": o[1], "fit": None})
+            return ("ANew", len(self.C) - 1)
+        if k == "NewA":
+            co = self.C[o[2]]
+            self.A.append({"kind": o[1], "cost": o[2], "clone_param": 0 if o[1] == "KSaving" else co["param"], "clone_fit": None, "fit": None})
+            return ("ANew", len(self.A) - 1)
+        if k == "SetC":
+            self.C[o[1]] = {"param": o[2], "fit": None}
+            return ("ANone",)
+        if k == "FitC":
+            self.C[o[1]]["fit"] = o[2]
+            return ("ANone",)
+        if k == "FitA":
+            ad = self.A[o[1]]
+            co = self.C[ad["cost"]]
+            if ad["kind"] == "KLocal":
+                ad["clone_param"] = co["param"]
+            if ad["kind"] == "KSaving":
+                ad["clone_fit"] = o[2]
+            ad["fit"] = o[2]
+            co["fit"] = o[2]
+            return ("ANone",)
+        ad = self.A[o[1]]
+        co = self.C[ad["cost"]]
+        if ad["fit"] is None or co["fit"] is None:
+            return ("ANotFitted",)
+        return ("AVal", ad["kind"], co["param"], co["fit"], ad["clone_param"], ad["clone_fit"], ad["fit"])
+
+
+def aop_coq(o):
+    if o[0] == "NewA":
+        return f"NewA {o[1]} {o[2]}"
+    return " ".join([o[0]] + [str(v) for v in o[1:]])
+
+
+def aout_coq(r):
+    if r[0] in ("ANone", "ANotFitted"):
+        return r[0]
+    if r[0] == "ANew":
+        return f"(ANew {r[1]})"
+    cl = "None" if r[5] is None else f"(Some {r[5]})"
+    return f"(AVal {r[1]} {r[2]} {r[3]} {r[4]} {cl} {r[6]})"
+
+
+def adapter_model_stream(ctx, DATA):
+    import os
+    from harness.engine import COQ
+    if not os.path.exists(os.path.join(COQ, "Check", "AdaptersCheck.v")):
+        return
+    from skchange.anomaly_scores import LocalAnomalyScore, Saving
+    from skchange.change_scores import ChangeScore
+    from skchange.costs import L2Cost
+    try:
+        from sktime.exceptions import NotFittedError
+    except Exception:  # pragma: no cover
+        from sklearn.exceptions import NotFittedError
+    rng = ctx.rng
+    MK = {"KChange": ChangeScore, "KSaving": Saving, "KLocal": LocalAnomalyScore}
+    CUTS = {"KChange": np.asarray([[0, 6, 14], [3, 9, 20]]), "KSaving": np.asarray([[0, 9], [5, 21]]), "KLocal": np.asarray([[0, 4, 10, 16], [2, 8, 12, 22]])}
+    cases, meta = [], []
+    for h in range(ctx.n(60, 600)):
+        pcls = rng.choice([0, 4])                  # datasets 0..3 have one column, 4..7 two
+        tw = ATwin()
+        ops, outs, realC, realA = [], [], [], []
+        hist = []
+        ok = True
+        for step in range(rng.randint(6, 22)):
+            ch = []
+            if len(realC) < 2:
+                ch += ["NewC"] * 3
+            if realC and len(realA) < 4:
+                ch += ["NewA"] * 3
+            if realC:
+                ch += ["FitC", "SetC"]
+            if realA:
+                ch += ["FitA"] * 4 + ["EvalA"] * 5
+            k = rng.choice(ch)
+            if k == "NewC":
+                o = ("NewC", rng.choice([0, 1, 2]))
+            elif k == "NewA":
+                c = rng.randrange(len(realC))
+                kind = rng.choice(AK)
+                if kind == "KSaving" and tw.C[c]["param"] == 0:
+                    continue                      # Saving needs a fixed baseline hyper-parameter
+                o = ("NewA", kind, c)
+            elif k == "SetC":
+                c = rng.randrange(len(realC))
+                pnew = rng.choice([0, 1, 2])
+                if pnew == 0 and any(a["kind"] == "KSaving" and a["cost"] == c for a in tw.A):
+                    continue
+                o = ("SetC", c, pnew)
+            elif k == "FitC":
+                o = ("FitC", rng.randrange(len(realC)), pcls + rng.randrange(4))
+            elif k == "FitA":
+                o = ("FitA", rng.randrange(len(realA)), pcls + rng.randrange(4))
+            else:
+                o = ("EvalA", rng.randrange(len(realA)))
+            r = tw.step(o)
+            ops.append(o)
+            outs.append(r)
+            hist.append(aop_coq(o))
+            inp = {"history": list(hist), "model_output": str(r)}
+            try:
+                real = None
+                if o[0] == "NewC":
+                    realC.append(L2Cost(param=SPARAMS[o[1]]))
+                elif o[0] == "NewA":
+                    realA.append(MK[o[1]](realC[o[2]]))
+                elif o[0] == "SetC":
+                    realC[o[1]].set_params(param=SPARAMS[o[2]])
+                elif o[0] == "FitC":
+                    realC[o[1]].fit(DATA[o[2]])
+                elif o[0] == "FitA":
+                    realA[o[1]].fit(DATA[o[2]])
+                else:
+                    kind = tw.A[o[1]]["kind"]
+                    try:
+                        real = [float(v).hex() for v in realA[o[1]].evaluate(CUTS[kind]).reshape(-1)]
+                    except NotFittedError:
+                        real = "NotFitted"
+            except Exception as ex:
+                ctx.violation(f"adapter history step {hist[-1]} raised {type(ex).__name__}: {str(ex)[:140]}", inp, {"what": "exception", "op": "adapter:" + o[0], "cls": type(ex).__name__})
+                ok = False
+                break
+            if o[0] != "EvalA":
+                continue
+            if (r[0] == "ANotFitted") != (real == "NotFitted"):
+                ctx.violation(f"{hist[-1]}: implementation {'raised NotFittedError' if real == 'NotFitted' else 'returned values'}, model says {r[0]}", inp,
+                              {"what": "fitted-state", "op": "adapter"})
+                ok = False
+                break
+            if r[0] == "AVal":
+                _, kind, cp, cd, clp, cld, own = r
+                # rebuild from the dependency tuple with FRESH objects: adapter fitted on its own data, then the cost refitted on the data it was last fitted on
+                c0 = L2Cost(param=SPARAMS[clp] if kind == "KLocal" else SPARAMS[cp])
+                a0 = MK[kind](c0).fit(DATA[own])
+                if kind == "KLocal" and clp != cp:
+                    c0.set_params(param=SPARAMS[cp])
+                    c0.fit(DATA[cd])
+                elif cd != own:
+                    c0.fit(DATA[cd])
+                want = [float(v).hex() for v in a0.evaluate(CUTS[kind]).reshape(-1)]
+                ctx.case({"ahist": h, "i": step}, nontrivial=len(hist) > 3)
+                if real != want:
+                    ctx.violation(f"{kind} adapter: evaluate after the history {hist} differs from fresh objects built from the model's dependency tuple "
+                                  f"(cost hyper-parameter {cp} fitted on D{cd}, private clone {clp}, adapter fitted on D{own})", dict(inp, real=real, fresh=want),
+                                  {"what": "history-dependence", "entry": "adapter-evaluate", "adapter": kind})
+                    ok = False
+                    break
+        if not ok:
+            continue
+        sc = [(c["param"], c["fit"] is not None) for c in tw.C]
+        sa = [a["fit"] is not None for a in tw.A]
+        real_sc = [([q for q in SPARAMS if SPARAMS[q] == c.param][0], bool(c._is_fitted)) for c in realC]
+        real_sa = [bool(a._is_fitted) for a in realA]
+        if real_sc != sc or real_sa != sa:
+            ctx.violation(f"adapter history: final state differs from the model: costs {real_sc} vs {sc}, adapters fitted {real_sa} vs {sa}", {"history": hist},
+                          {"what": "final-state", "op": "adapter"})
+            continue
+        cases.append(f"({coq_list([aop_coq(o) for o in ops])}, {coq_list([aout_coq(r) for r in outs])}, "
+                     f"({coq_list([f'({a}, {coq_bool(b)})' for a, b in sc])}, {coq_list([coq_bool(b) for b in sa])}))")
+        meta.append({"history": hist})
+        ctx.count("stream", "adapter-model")
+    bad = coq_bad_cases(ctx.cid, AHEADER, "ahist_case", "ahist_ok", cases, shard=100, tag="ahist")
+    for i in bad[:10]:
+        ctx.mismatch("the Python twin of Model/Adapters.astep disagrees with the Coq model on this history", meta[i], {"what": "twin-vs-model", "model": "adapters"})
